@@ -15,6 +15,7 @@ mod scn_close;
 mod scn_cont;
 mod scn_ctl;
 mod scn_exec;
+mod scn_full;
 mod scn_held;
 mod scn_hist;
 mod scn_life;
@@ -79,7 +80,7 @@ fn registry(property: &str) -> Option<PropertyCheck> {
         "C16" => PropertyCheck { parts: vec![Box::new(Part(Arc::new(scn_hist::Hist { property: "C16", flavour: scn_hist::Flavour::Rejections }))), Box::new(Part(Arc::new(scn_held::RejectConc)))], rule: RULE_TH, quick_s: 40, thorough_s: 600, assumptions: vec![], checked_build: false },
         "C05" => PropertyCheck { parts: vec![Box::new(Part(Arc::new(scn_hist::Hist { property: "C05", flavour: scn_hist::Flavour::Teardown }))), Box::new(Part(Arc::new(scn_held::HeldConc)))], rule: RULE_TH, quick_s: 40, thorough_s: 900, assumptions: vec![], checked_build: false },
         "C09" => PropertyCheck { parts: vec![Box::new(Part(Arc::new(scn_multi::C09))), Box::new(Part(Arc::new(scn_oldies::OldiesExec { property: "C09" })))], rule: RULE_TD, quick_s: 32, thorough_s: 900, assumptions: vec![], checked_build: false },
-        "C17" => PropertyCheck { parts: vec![Box::new(Part(Arc::new(scn_multi::C17)))], rule: RULE_T, quick_s: 25, thorough_s: 900, assumptions: vec![], checked_build: false },
+        "C17" => PropertyCheck { parts: vec![Box::new(Part(Arc::new(scn_multi::C17))), Box::new(Part(Arc::new(scn_full::FullListener)))], rule: RULE_T, quick_s: 36, thorough_s: 900, assumptions: vec![], checked_build: false },
         "C07" => PropertyCheck { parts: vec![Box::new(Part(Arc::new(scn_ctl::Cancel)))], rule: RULE_T, quick_s: 30, thorough_s: 900, assumptions: vec![], checked_build: false },
         "C20" => PropertyCheck { parts: vec![Box::new(Part(Arc::new(scn_ctl::Suspend)))], rule: RULE_T, quick_s: 30, thorough_s: 900, assumptions: vec![], checked_build: false },
         "C14" => PropertyCheck { parts: vec![Box::new(Part(Arc::new(scn_own::Handles)))], rule: RULE_T, quick_s: 25, thorough_s: 900, assumptions: vec![], checked_build: false },
